@@ -104,7 +104,7 @@ class SolverUnknown(Exception):
 
 
 class Exec:
-    def __init__(self, mods, solver="inc", timeout_ms=60000, max_loop=10000, concretize_limit=64):
+    def __init__(self, mods, solver="inc", timeout_ms=300000, max_loop=10000, concretize_limit=64):
         self.mods = mods if isinstance(mods, (list, tuple)) else [mods]
         self.funcs, self.decls, self.globals_ir = {}, {}, {}
         for m in self.mods:
@@ -125,8 +125,9 @@ class Exec:
         self.on_fdiv0 = "finding"  # or "infeasible"
         self.concrete = None       # dict name -> value: concrete re-run under a model (replay)
         self.s = z3.Solver() if solver == "inc" else None
+        self.inc_timeout_ms = min(timeout_ms, 8000)     # incremental attempt; a fresh solver gets the full limit
         if self.s is not None:
-            self.s.set("timeout", timeout_ms)
+            self.s.set("timeout", self.inc_timeout_ms)
         install_default_hooks(self)
         self._reset_path([])
 
@@ -145,7 +146,7 @@ class Exec:
         self.heap_live = {}
         if self.s is not None:
             self.s.reset()
-            self.s.set("timeout", self.timeout_ms)
+            self.s.set("timeout", self.inc_timeout_ms)
         # function "addresses" first so that they are the same on every path
         for nm in sorted(set(self.funcs) | set(self.decls) | set(self.hooks)):
             self._func_addr(nm)
@@ -207,10 +208,24 @@ class Exec:
                 s.add(extra)
             r = s.check()
             self._last = s
-        self.stats["solver_s"] += time.time() - t0
+        dt = time.time() - t0
+        self.stats["solver_s"] += dt
+        if dt > self.stats.get("max_query_s", 0):
+            self.stats["max_query_s"] = dt
         if r == z3.unknown:
-            self.stats["unknown"] += 1
-            raise SolverUnknown(str(extra)[:200] if extra is not None else "pc")
+            # retry once with a fresh, non-incremental solver and a longer limit before giving up
+            t1 = time.time()
+            s2 = z3.Solver()
+            s2.set("timeout", self.timeout_ms)
+            s2.add(*self.pc)
+            if extra is not None:
+                s2.add(extra)
+            r = s2.check()
+            self.stats["retries"] = self.stats.get("retries", 0) + 1
+            self.stats["solver_s"] += time.time() - t1
+            if r == z3.unknown:
+                self.stats["unknown"] += 1
+                raise SolverUnknown((str(extra)[:200] if extra is not None else "pc") + " reason=" + s2.reason_unknown())
         return r == z3.sat
 
     def _fresh_solver(self):
@@ -223,9 +238,10 @@ class Exec:
             return None
         if self.s is not None:
             r = self.s.check(*([extra] if extra is not None else []))
-            if r != z3.sat:
+            if r == z3.sat:
+                return self.s.model()
+            if r == z3.unsat:
                 return None
-            return self.s.model()
         s = self._fresh_solver()
         s.add(*self.pc)
         if extra is not None:
